@@ -309,7 +309,10 @@ def gen_contract(rng, name, uid):
             '    error Er%d(uint8 code);\n' % j,
             '    constructor() {}\n' if kind != 'library' and j == 0 else '    uint8 tail%d;\n' % j]))
     rng.shuffle(parts)
-    return '%s %s {\n%s}\n' % (kind, name, ''.join(parts))
+    base = ''
+    if uid > 0 and kind != 'library' and rng.random() < 0.35:
+        base = ' is ' + ', '.join(rng.sample(['C%d' % b for b in range(uid)], rng.randint(1, min(2, uid))))
+    return '%s %s%s {\n%s}\n' % (kind, name, base, ''.join(parts))
 
 
 def gen_program(rng, k):
@@ -358,6 +361,14 @@ FIXED_PROGRAMS = [
     # small contracts before a packable one / before an optimal one (state must not leak from one contract to the next)
     'contract Pausable { bool paused; }\ncontract Pool { uint128 a; uint256 b; uint128 c; }\ncontract Guarded { uint256 g1; bool g2; }\ncontract Registry { uint256 r1; address r2; bool r3; }',
     'interface I { struct S { uint128 a; uint256 b; uint128 c; } struct T2 { uint128 a; uint128 c; uint256 b; } }',
+    # inheritance: the members of a base are not members of the derived contract's own declaration list
+    'contract Base { uint128 a; uint256 b; }\ncontract Derived is Base { uint128 c; }\ncontract Owned { address owner; }\ncontract Vault is Owned, Base { uint256 total; uint64 t; bool open; }',
+    'contract Derived is Base { uint128 c; uint256 d; }\ncontract Base { uint128 a; }\nabstract contract Mid is Base { uint128 e; uint256 f; uint128 g; }\ncontract Leaf is Mid(1) { uint8 h; }',
+    'interface IB { }\ncontract Base { uint8 a; uint256 b; uint8 c; }\ncontract D1 is Base, IB { uint256 x; uint8 y; }\ncontract D2 is Base { uint8 y; }',
+    # narrow fields whose widths do not tile a slot: no order beats the declared one although the bits would fit in fewer slots
+    'struct Five96 { uint96 a; uint96 b; uint96 c; uint96 d; uint96 e; }\nstruct Five88 { uint88 a; uint88 b; uint88 c; uint88 d; uint88 e; }\n'
+    'contract N { struct Mix { bytes12 a; uint96 b; int96 c; bytes12 d; uint96 e; uint96 f; uint96 g; } uint96 a; uint96 b; uint96 c; uint96 d; uint96 e; }',
+    'struct S104 { uint104 a; uint104 b; uint104 c; uint104 d; uint104 e; uint104 f; uint104 g; }\ncontract T { uint120 a; uint120 b; uint120 c; uint72 d; uint72 e; uint72 f; uint72 g; }',
 ]
 
 
